@@ -82,6 +82,10 @@ def run(pid, root, quiet=False, jobs=None):
                 if not os.path.exists(mp):
                     continue
                 meta = json.load(open(mp))
+                if meta.get('reported_only_with_refused_twin'):
+                    res['skipped'].append(f'seeded/{name}: reported only together with its clean twin benign/{meta["reported_only_with_refused_twin"]} '
+                                          f'(a documented false alarm); not counted as detected')
+                    continue
                 rep = meta.get('checks_reporting', {}).get(pid)
                 if not rep or rep.get('exit') != 1:
                     continue
